@@ -150,9 +150,23 @@ def compare(case, m, els, start, dt, steps, grid):
                 return "%s(%r) raised %s: %s" % (name, t, type(e).__name__, e)
             if not math.isclose(float(g), float(w), rel_tol=1e-7, abs_tol=1e-7):
                 return "%s(%r) = %r, explicit Euler gives %r" % (name, t, g, w)
+    # a value is reported for EVERY grid time from start through stop (the run the element itself offers)
+    for name in list(want)[-2:]:
+        try:
+            df = els[name].plot(return_df=True)
+        except Exception as e:
+            return "%s.plot(return_df=True) raised %s: %s" % (name, type(e).__name__, e)
+        idx = [float(x) for x in df.index]
+        if idx != grid:
+            missing = [t for t in grid if t not in idx]
+            return "%s: the run reports the times %r, the grid is %r (no value reported at %r)" % (name, idx[:12], grid[:12], missing[:3])
+        col = df[df.columns[0]]
+        for k, t in enumerate(grid):
+            if not math.isclose(float(col[t]), float(want[name][k]), rel_tol=1e-7, abs_tol=1e-7):
+                return "%s: the run reports %r at %r, explicit Euler gives %r" % (name, col[t], t, want[name][k])
     return None
 
-case = {'start': 0.0, 'dt': 0.25, 'steps': 3, 'elements': [('constant', 'c1', 0.5), ('constant', 'c2', 1.0), ('converter', 'v0', 'DT'), ('flow', 'f0', '2.0'), ('stock', 's0', (-3.0, ['f0'], [], 'F_min(F_smooth(v0, 2.0, 0.0), F_smooth(v0, 2.0, 3.0))')), ('stock', 's1', (-3.0, [], [], 'F_pulse(4.0, 1.0, 0.0)'))], 'dt2': None}
+case = {'start': 0.1, 'dt': 0.1, 'steps': 7, 'elements': [('constant', 'c1', 3.0), ('constant', 'c2', 1.0), ('converter', 'v0', '((c2 - DT) - (DT + (c1 - DT)))'), ('converter', 'v1', '0.5'), ('flow', 'f0', 'F_min(F_trend(s1, 4.0, (-0.5)), F_abs((0.5 + v0)))'), ('stock', 's0', (10.0, [], [], None)), ('stock', 's1', (10.0, ['f0'], [], None))], 'dt2': 0.05, 'edit': ('c2', 7.0)}
 bad = run(case)
 print("model:", case)
 print("FAIL: " + bad if bad else "PASS")
